@@ -844,6 +844,37 @@ func (r *Run) builtin(b *ssa.Builtin, args []Value, c *ssa.CallCommon) Value {
 			acc = ts.Ite(lt, y, acc)
 		}
 		return acc
+	case "SliceData":
+		sl := args[0].(*SliceV)
+		if sl.obj == nil || sl.cap == 0 {
+			return &PtrV{}
+		}
+		return sl.elemPtr(0)
+	case "String", "Slice":
+		p := args[0].(*PtrV)
+		n := int(r.concretize(args[1].(*Term), "unsafe length"))
+		if p.obj == nil || len(p.path) == 0 {
+			if b.Name() == "String" {
+				return StrV{}
+			}
+			return &SliceV{}
+		}
+		start := p.path[len(p.path)-1]
+		sl := &SliceV{obj: p.obj, path: p.path[:len(p.path)-1], off: start, len: n, cap: n}
+		if b.Name() == "Slice" {
+			return sl
+		}
+		bs := r.sliceBytes(sl)
+		nb := make([]*Term, len(bs))
+		copy(nb, bs)
+		return StrV{b: nb}
+	case "StringData":
+		str := args[0].(StrV)
+		if len(str.b) == 0 {
+			return &PtrV{}
+		}
+		sl := r.newByteSlice(str.b, len(str.b))
+		return sl.elemPtr(0)
 	case "clear":
 		switch x := args[0].(type) {
 		case *MapV:
